@@ -482,11 +482,13 @@ def rate_cases():
 
 
 def apparent_cases():
-    own = st.builds(lambda j, a: {"j": j, "mode": "own", "as_angle": a}, ES.jdes(), st.booleans())
-    given = st.builds(lambda j, a, dpsi, eps: {"j": j, "mode": "given", "as_angle": a,
-                                               "dpsi_arcsec": dpsi, "eps": eps},
-                      ES.jdes(), st.booleans(), st.floats(-20.0, 20.0), st.floats(22.0, 24.5))
-    return st.one_of(own, own, given)
+    def build(j, a, mode, dpsi, eps):
+        if mode == "own":
+            return {"j": j, "mode": "own", "as_angle": a}
+        return {"j": j, "mode": "given", "as_angle": a, "dpsi_arcsec": dpsi, "eps": eps}
+    return st.builds(build, ES.jdes(), st.booleans(),
+                     st.sampled_from(["own", "own", "own", "given"]),
+                     st.floats(-20.0, 20.0), st.floats(22.0, 24.5))
 
 
 STRATS = {"yearsorted": yearsorted_cases, "gmst": gmst_cases, "rate": rate_cases,
